@@ -319,6 +319,13 @@ func (c *Config) validate() error {
 	if c.MaxCommittedSizePerReady == 0 {
 		c.MaxCommittedSizePerReady = c.MaxSizePerMsg
 	}
+	if c.MaxCommittedSizePerReady == 0 {
+		// MaxSizePerMsg == 0 means "at most one entry per message". A zero
+		// apply budget would never admit an entry (nextCommittedEnts panics,
+		// or pauses forever once Applied is set), so hand out one entry at a
+		// time instead.
+		c.MaxCommittedSizePerReady = 1
+	}
 
 	if c.MaxInflightMsgs <= 0 {
 		return errors.New("max inflight messages must be greater than 0")
